@@ -170,7 +170,7 @@ func Harness_C17_foreign_archive() {
 		vm.Assert("C17.rebuild_same_root", rroot == root)
 	}
 	// arbitrary further calls on the original members: they can be renamed and removed like any other entry
-	switch vm.Choice("thenOnMember", 4) {
+	switch vm.Choice("thenOnMember", 5) {
 	case 1:
 		vm.Assert("C17.foreign_member_can_be_renamed", v.FS.Rename(prefix+g, prefix+"z") == nil)
 		_, se := v.FS.Stat(prefix + "z")
@@ -183,6 +183,21 @@ func Harness_C17_foreign_archive() {
 		vm.Assert("C17.foreign_directory_can_be_removed_recursively", v.FS.RemoveAll(prefix+e) == nil)
 		_, se := v.FS.Stat(prefix + e + "/k")
 		vm.Assert("C17.removed_foreign_subtree_is_gone", se != nil)
+	case 4:
+		// an attribute change of the top-level directory itself, then the root is inferred afresh (as after reopening
+		// the index in a new process): it is still the same directory and still lists its members
+		top := "/"
+		if style == 2 {
+			top = root
+		}
+		vm.Assert("C17.top_directory_chmod_ok", v.FS.Chmod(top, 0o750) == nil)
+		v.Env.P.VerifSetRoot("")
+		again, rerr := v.Env.P.GetRootPath(context.Background())
+		vm.Assert("C17.root_inferred_again_is_the_same", rerr == nil && again == root)
+		if rerr == nil && again == root {
+			l4, e4 := inventory.List(md, again, -1, nil)
+			vm.Assert("C17.root_still_lists_its_members", e4 == nil && c17Has(l4, prefix+d) == 1 && c17Has(l4, prefix+e) == 1)
+		}
 	}
 	vm.Assert("C17.locks_free", v.Env.LocksFree())
 }
